@@ -41,6 +41,9 @@ pub enum UpBehaviour {
     WrongId,
     /// UDP answers are truncated (TC, no records); TCP gives the full answer
     Tc,
+    /// UDP answers are truncated the way most servers do it: TC set, the first `keep` answer
+    /// records still there; TCP gives the full answer (if the TCP side lets it)
+    TcPartial { keep: u8 },
     /// reply with octets that are not a DNS message
     Garbage,
     /// ICMP port unreachable for every UDP transmission
@@ -842,6 +845,7 @@ pub fn generate(seed: u64, g: &GenB) -> PlanB {
     }
     if shape == "cache" {
         add_cache_followups(&mut p, &mut r);
+        add_truncated_then_tcp(&mut p, seed);
     }
     if shape == "tcpidle" {
         add_tcp_idle_followups(&mut p, &mut r);
@@ -1089,6 +1093,52 @@ fn add_tcp_idle_followups(p: &mut PlanB, r: &mut Rng) {
 
 /// The cache shape: repeat keys at instants around the TTL boundary, and
 /// near-miss keys (other type, DO, CD, class, case).
+/// A UDP query whose upstream answers TC with part of the records still in the datagram, while
+/// the upstream's TCP side fails at that moment (reset, close); a little later, within the TTL
+/// of those records, the same question arrives over TCP and the upstream's TCP side works.
+/// Whatever erbium made of the fragment, the TCP client is owed the complete answer.
+fn add_truncated_then_tcp(p: &mut PlanB, seed: u64) {
+    let mut k = Rng::new(seed, "plan-b-truncated-then-tcp");
+    if !k.chance(0.3) {
+        return;
+    }
+    let cands: Vec<usize> = p
+        .queries
+        .iter()
+        .enumerate()
+        .filter(|(_, q)| q.raw.is_none() && matches!(p.route_for(&q.qname), Some(RouteKind::Forward(u)) if p.upstream_tcp[*u] == "accept"))
+        .map(|(i, _)| i)
+        .collect();
+    if cands.is_empty() {
+        return;
+    }
+    let template = p.queries[*k.pick(&cands)].clone();
+    let mut q = template.clone();
+    q.at_ms = template.at_ms + k.range(0, 3000);
+    q.src_port = 650;
+    q.id = k.below(65536) as u16;
+    q.qname = Name::parse(&format!("cut.{}", template.qname.to_text()));
+    q.qtype = 1;
+    q.qclass = 1;
+    q.rd = true;
+    q.tcp = false;
+    q.tcp_split = vec![];
+    q.dup_in = false;
+    q.ttl_boundary = None;
+    q.ans = AnsSpec { seed: k.next_u64(), rcode: 0, counts: [k.range(3, 9) as u16, k.range(0, 2) as u16, k.range(0, 2) as u16], ttl_mode: 1, fixed_ttl: *k.pick(&[5u32, 30, 300]), pad: 0, compress: true, share_names: true, with_opt: true, steer_total: None };
+    q.up = UpBehaviour::TcPartial { keep: k.range(1, 3) as u8 };
+    q.up_tcp = k.pick(&[UpTcp::Reset, UpTcp::Close]).clone();
+    let mut f = q.clone();
+    f.at_ms = q.at_ms + *k.pick(&[300u64, 1000, 2500, 4000]);
+    f.src_port = 651;
+    f.id = k.below(65536) as u16;
+    f.tcp = true;
+    f.up = UpBehaviour::Normal { delay_ms: 10 };
+    f.up_tcp = UpTcp::Normal;
+    p.queries.push(q);
+    p.queries.push(f);
+}
+
 fn add_cache_followups(p: &mut PlanB, r: &mut Rng) {
     let base: Vec<QuerySpec> = p.queries.iter().filter(|q| !q.tcp || true).cloned().collect();
     let mut extra = vec![];
